@@ -4,6 +4,14 @@ The five tfel-check `*Comparison.cxx` and the two MTest `@Test` sources are comp
 current tree into harness/C51/harness.cxx; the Lean model (lean/TfelVerif/C51/Model.lean, run on
 `Float`) gets the same requests (bit patterns of doubles).  Every answer is compared and, on every
 request, the property's own predicate is evaluated on the implementation's answer.
+
+MTest periods are checked as time steps [i-1, i] (t = i-1, dt = 1): the analytical formula must be
+evaluated at t+dt, through an evolution (`analytical`, formula "r") and through the time variable as
+well (`analytical_t`, formula "r*(1+t-tt)" with the evolution tt(t) = t: bit-identical to r at the end
+of the step only).  ReferenceFileComparisonTest is built through both constructors (`reffile`: column
+number, `reffile_f`: formula "$2").  For Area the Python predicate knows the normalised area on a
+common grid and, with linear interpolation, on two different strictly increasing grids with common
+end points (both piecewise linear curves evaluated on the union of the grids).
 """
 import math
 import os
@@ -27,8 +35,17 @@ SITE = {
     "mixed": "tfel-check/src/MixedComparison.cxx:MixedComparison::compare",
     "area": "tfel-check/src/AreaComparison.cxx:AreaComparison::compare",
     "analytical": "mtest/src/AnalyticalTest.cxx:AnalyticalTest::check",
+    "analytical_t": "mtest/src/AnalyticalTest.cxx:AnalyticalTest::check",
     "reffile": "mtest/src/ReferenceFileComparisonTest.cxx:ReferenceFileComparisonTest::check",
+    "reffile_f": "mtest/src/ReferenceFileComparisonTest.cxx:ReferenceFileComparisonTest::check",
 }
+# kinds of the harness that are one kind for the model: `analytical_t` is `analytical` with a formula
+# using the time variable (r*(1+t-tt), equal to r at the end of the time step), `reffile_f` is
+# `reffile` through the constructor taking a formula ("$2")
+MODEL_KIND = {"analytical_t": "analytical", "reffile_f": "reffile"}
+ANALYTICAL = ("analytical", "analytical_t")
+REFFILE = ("reffile", "reffile_f")
+MTEST = ANALYTICAL + REFFILE
 
 
 def bits(x):
@@ -110,17 +127,49 @@ def mtest_property(kind, eps, v, r, answer):
     return None
 
 
-def area_reference(prec, ta, va, tb, vb):
-    """expected verdict when both curves live on one sorted finite grid (no point inserted):
-    the trapezoids of |a-b| divided by max(a), in the operation order of the source"""
-    if [bits(x) for x in ta] != [bits(x) for x in tb]:
+def lin_value(t, v, x):
+    """tfel::check::Linearization::operator() for strictly increasing finite abscissas `t`"""
+    if len(t) == 1:
+        return v[0]
+    k = 0
+    while k < len(t) and t[k] < x:   # lower_bound
+        k += 1
+    if k == 0:
+        return v[0]
+    if k == len(t):
+        return v[-1]
+    return fdiv(v[k] - v[k - 1], t[k] - t[k - 1]) * (x - t[k - 1]) + v[k - 1]
+
+
+def increasing(t):
+    return all(finite(x) for x in t) and all(t[i] < t[i + 1] for i in range(len(t) - 1))
+
+
+def area_reference(prec, ta, va, tb, vb, interp="none"):
+    """expected verdict, as (verdict, normalised area), or None when the property text does not define
+    'the normalised area between the curves' for this request.  Defined for
+      * both curves on one sorted finite grid (no point inserted, any interpolation): the trapezoids
+        of |a-b| divided by max(a), in the operation order of the source;
+      * linear interpolation, two strictly increasing finite grids with the same first and last
+        abscissa: both curves are piecewise linear on the same interval; each is evaluated on the
+        union of the grids (own points: the given value, other points: linear interpolation), then the
+        same trapezoids of |a-b| divided by max(a)."""
+    if [bits(x) for x in ta] == [bits(x) for x in tb]:
+        if any(not finite(t) for t in ta) or any(ta[i] > ta[i + 1] for i in range(len(ta) - 1)):
+            return None
+        tu, ua, ub = ta, va, vb
+    elif (interp == "linear" and increasing(ta) and increasing(tb) and ta[0] == tb[0] and ta[-1] == tb[-1]):
+        tu = sorted(set(ta) | set(tb))
+        ia = {x: y for x, y in zip(ta, va)}
+        ib = {x: y for x, y in zip(tb, vb)}
+        ua = [ia[x] if x in ia else lin_value(ta, va, x) for x in tu]
+        ub = [ib[x] if x in ib else lin_value(tb, vb, x) for x in tu]
+    else:
         return None
-    if any(not finite(t) for t in ta) or any(ta[i] > ta[i + 1] for i in range(len(ta) - 1)):
-        return None
-    d = [abs(x - y) for x, y in zip(va, vb)]
+    d = [abs(x - y) for x, y in zip(ua, ub)]
     area = 0.0
-    for i in range(len(ta) - 1):
-        area += ((ta[i + 1] - ta[i]) * (d[i + 1] + d[i])) / 2
+    for i in range(len(tu) - 1):
+        area += ((tu[i + 1] - tu[i]) * (d[i + 1] + d[i])) / 2
     m = va[0]
     for x in va:
         if m < x:
@@ -129,12 +178,13 @@ def area_reference(prec, ta, va, tb, vb):
     return ("fail" if na > prec else "ok"), na
 
 
-def area_property(prec, ta, va, tb, vb, answer):
-    ref = area_reference(prec, ta, va, tb, vb)
+def area_property(prec, ta, va, tb, vb, answer, interp="none"):
+    ref = area_reference(prec, ta, va, tb, vb, interp)
     if ref is None:
         return None
     expected, na = ref
-    identical = [bits(x) for x in va] == [bits(x) for x in vb] and all(finite(x) for x in va)
+    identical = ([bits(x) for x in ta] == [bits(x) for x in tb] and
+                 [bits(x) for x in va] == [bits(x) for x in vb] and all(finite(x) for x in va))
     if identical and not prec < 0 and answer != "ok":
         return "identical curves do not succeed (tolerance %r)" % prec
     if expected == "fail" and answer != "fail":
@@ -215,7 +265,35 @@ def gen_grid(rng, n):
     return out
 
 
+def gen_area_linear_request(rng):
+    """two strictly increasing grids with common end points (one refines, coarsens or interleaves the
+    other), linear interpolation: the area between the two piecewise linear curves is defined"""
+    ta = []
+    t = rng.randint(-8, 8) / 2.0
+    for _ in range(rng.randint(2, 6)):
+        ta.append(t)
+        t += rng.choice([0.25, 0.5, 1.0, 1.0, 1.5, 3.0]) if rng.random() < 0.9 else rng.uniform(0.01, 2)
+    inner = set(x for x in ta[1:-1] if rng.random() < 0.5)
+    for i in range(len(ta) - 1):
+        if rng.random() < 0.5:
+            w = rng.choice([0.25, 0.5, 0.5, 0.75])
+            x = ta[i] + w * (ta[i + 1] - ta[i])
+            if ta[i] < x < ta[i + 1]:
+                inner.add(x)
+    tb = [ta[0]] + sorted(inner) + [ta[-1]]
+    if rng.random() < 0.5:
+        ta, tb = tb, ta
+    special = rng.random() < 0.08
+    va = [rand_value(rng, special, False) for _ in ta]
+    on_a = [va[ta.index(x)] if x in ta else lin_value(ta, va, x) for x in tb]
+    vb = on_a if rng.random() < 0.25 else [perturb(rng, y, special, False) for y in on_a]
+    return {"kind": "area", "interp": "linear", "p": rand_tol(rng, False),
+            "ta": ta, "va": va, "tb": tb, "vb": vb}
+
+
 def gen_area_request(rng):
+    if rng.random() < 0.3:
+        return gen_area_linear_request(rng)
     na = rng.randint(1, 6)
     ta = gen_grid(rng, na)
     u = rng.random()
@@ -241,13 +319,13 @@ def gen_area_request(rng):
 
 
 def gen_mtest_request(rng, kind=None):
-    kind = kind or rng.choice(["analytical", "reffile"])
+    kind = kind or rng.choice(MTEST)
     special = rng.random() < 0.35
     n = rng.randint(1, 6)
-    ninf = kind != "reffile"
+    ninf = kind not in REFFILE
     v = [rand_value(rng, special, ninf) for _ in range(n)]
     r = list(v) if rng.random() < 0.25 else [perturb(rng, x, special, ninf) for x in v]
-    if kind == "reffile":
+    if kind in REFFILE:
         u = rng.random()
         if u < 0.1 and n > 1:
             r = r[:rng.randint(1, n - 1)]
@@ -288,7 +366,7 @@ def fixed_requests():
               "tb": [-1.0, 0.5, 1.5, 3.0], "vb": [1.0, 3.5, 2.0, 2.0]})
     R.append({"kind": "area", "interp": "none", "p": 0.1, "ta": [0.0, 1.0, 2.0], "va": [-1.0, -2.0, -3.0],
               "tb": [0.0, 1.0, 2.0], "vb": [10.0, 20.0, 40.0]})
-    for kind in ("analytical", "reffile"):
+    for kind in MTEST:
         R.append({"kind": kind, "p": 0.1, "v": [1.0, 2.0, 3.0], "r": [1.0, 2.0, 3.0]})
         R.append({"kind": kind, "p": 0.5, "v": [1.0, 2.0, 3.0], "r": [1.0, 2.5, 3.0]})
         R.append({"kind": kind, "p": 0.5, "v": [1.0, 2.0, 3.0], "r": [1.0, 2.5000000000000004, 3.0]})
@@ -296,8 +374,18 @@ def fixed_requests():
         R.append({"kind": kind, "p": 0.1, "v": [1.0, 2.0, 3.0], "r": [1.0, INF, 3.0]})
         R.append({"kind": kind, "p": 0.1, "v": [1.0, NAN, 3.0], "r": [1.0, 2.0, 3.0]})
         R.append({"kind": kind, "p": 0.0, "v": [-1.0, 0.0, -0.0], "r": [-1.0, -0.0, 0.0]})
-    R.append({"kind": "reffile", "p": 0.1, "v": [1.0, 2.0, 3.0], "r": [1.0, 2.0]})
-    R.append({"kind": "reffile", "p": 0.1, "v": [1.0, 2.0], "r": [1.0, 2.0, 7.0]})
+    for kind in REFFILE:
+        R.append({"kind": kind, "p": 0.1, "v": [1.0, 2.0, 3.0], "r": [1.0, 2.0]})
+        R.append({"kind": kind, "p": 0.1, "v": [1.0, 2.0], "r": [1.0, 2.0, 7.0]})
+    # two piecewise linear curves on different grids with common end points (linear interpolation)
+    R.append({"kind": "area", "interp": "linear", "p": 0.1, "ta": [0.0, 1.0, 2.0], "va": [1.0, 2.0, 3.0],
+              "tb": [0.0, 0.5, 2.0], "vb": [1.0, 1.5, 3.0]})
+    R.append({"kind": "area", "interp": "linear", "p": 0.125, "ta": [0.0, 2.0], "va": [1.0, 1.0],
+              "tb": [0.0, 1.0, 2.0], "vb": [1.0, 1.25, 1.0]})    # normalised area == tol exactly
+    R.append({"kind": "area", "interp": "linear", "p": 0.125, "ta": [0.0, 2.0], "va": [1.0, 1.0],
+              "tb": [0.0, 1.0, 2.0], "vb": [1.0, 1.5, 1.0]})
+    R.append({"kind": "area", "interp": "linear", "p": 0.125, "ta": [0.0, 1.0, 2.0], "va": [1.0, 1.5, 1.0],
+              "tb": [0.0, 2.0], "vb": [1.0, 1.0]})
     return R
 
 
@@ -310,7 +398,7 @@ def encode(q):
         return " ".join(["area", q["interp"], bits(q["p"]), str(len(q["ta"]))] +
                         [bits(x) for x in q["ta"]] + [bits(x) for x in q["va"]] + [str(len(q["tb"]))] +
                         [bits(x) for x in q["tb"]] + [bits(x) for x in q["vb"]])
-    if k == "analytical":
+    if k in ANALYTICAL:
         return " ".join([k, bits(q["p"]), str(len(q["v"]))] + [bits(x) for x in q["v"]] + [bits(x) for x in q["r"]])
     return " ".join([k, bits(q["p"]), str(len(q["v"]))] + [bits(x) for x in q["v"]] +
                     [str(len(q["r"]))] + [bits(x) for x in q["r"]])
@@ -325,7 +413,7 @@ def input_class(q):
         if math.isnan(q["p"]):
             return "nan-tolerance"
         return "finite"
-    if k in ("analytical", "reffile"):
+    if k in MTEST:
         if any(not finite(x) for x in q["r"]):
             return "non-finite-reference"
         if any(not finite(x) for x in q["v"]):
@@ -343,8 +431,8 @@ def input_class(q):
 def property_of(q, answer):
     k = q["kind"]
     if k == "area":
-        return area_property(q["p"], q["ta"], q["va"], q["tb"], q["vb"], answer)
-    if k in ("analytical", "reffile"):
+        return area_property(q["p"], q["ta"], q["va"], q["tb"], q["vb"], answer, q["interp"])
+    if k in MTEST:
         return mtest_property(k, q["p"], q["v"], q["r"], answer)
     return column_property(k, q["p"], q["p2"], q["a"], q["b"], answer)
 
@@ -355,6 +443,39 @@ def printable(q):
 
 
 # ---------------------------------------------------------------- the check
+ANCHORED_SOURCES = ("AbsoluteComparison.cxx", "RelativeComparison.cxx", "RelativeAndAbsoluteComparison.cxx",
+                    "MixedComparison.cxx", "AreaComparison.cxx", "AnalyticalTest.cxx", "ReferenceFileComparisonTest.cxx")
+MAX_RESTARTS = 6
+
+
+def sanitizer_summary(stderr):
+    """(summary line, True when the reported location is in one of the anchored sources)"""
+    for line in stderr.splitlines():
+        if line.startswith("SUMMARY:") or "runtime error:" in line:
+            return line.strip()[:400], any(("/" + n + ":") in line for n in ANCHORED_SOURCES)
+    return None, False
+
+
+def run_harness(ck, harness, iodir, reqs):
+    """answers of the harness.  It answers one full line per request before reading the next one (cin is
+    tied to cout), so after an abort (sanitizer, crash) the request without answer is the culprit: it
+    gets the answer 'crash' and the harness is restarted on the requests that follow."""
+    impl, crashes, start = [], [], 0
+    while start < len(reqs):
+        text = "".join(encode(q) + "\n" for q in reqs[start:])
+        p = ck.run([harness, iodir], input=text, timeout=3000)
+        out = p.stdout.splitlines()[:len(reqs) - start]
+        impl += out
+        if p.returncode == 0 or start + len(out) >= len(reqs):
+            break
+        crashes.append((start + len(out), p.stderr))
+        impl.append("crash")
+        start = len(impl)
+        if len(crashes) >= MAX_RESTARTS:
+            break
+    return impl, crashes
+
+
 def build_harness(ck):
     # a scratch worktree has no build tree: vlib.BUILD then is /repo/_build (generated headers, prebuilt
     # libraries); everything under test is compiled from vlib.REPO below
@@ -396,7 +517,12 @@ def run(ck):
             reqs.append(gen_area_request(rng))
         else:
             reqs.append(gen_mtest_request(rng))
-    text = "".join(encode(q) + "\n" for q in reqs)
+
+    def model_line(q):
+        line = encode(q)
+        k = q["kind"]
+        return MODEL_KIND[k] + line[len(k):] if k in MODEL_KIND else line
+    model_text = "".join(model_line(q) + "\n" for q in reqs)
     # the harness rewrites two small files per request: use a tmpfs directory when there is one
     # (30x faster than the work directory), else the work directory
     io = None
@@ -408,16 +534,31 @@ def run(ck):
     iodir = io or ck.path("io")
     os.makedirs(iodir, exist_ok=True)
     try:
-        pi = ck.run([harness, iodir], input=text, timeout=3000)
+        impl, crashes = run_harness(ck, harness, iodir, reqs)
     finally:
         if io:
             shutil.rmtree(io, ignore_errors=True)
-    pm = ck.run([driver], input=text, timeout=3000)
-    impl = pi.stdout.splitlines()
+    pm = ck.run([driver], input=model_text, timeout=3000)
     model = pm.stdout.splitlines()
-    if pi.returncode != 0 or len(impl) != len(reqs):
-        ck.violation("harness-crash", "the implementation harness aborted (sanitizer or crash) after %d answers" % len(impl),
-                     {"stderr": pi.stderr[-2000:], "request": printable(reqs[len(impl)]) if len(impl) < len(reqs) else None}, False)
+    crash_why = {}
+    crash_log = dict(crashes)
+    foreign_crash = False
+    for k, stderr in crashes:
+        summary, anchored = sanitizer_summary(stderr)
+        if anchored:
+            # a memory/undefined-behaviour error inside the class under test on a well-formed request: no
+            # verdict is produced where the property demands one (reported below with the request)
+            crash_why[k] = "the implementation aborts instead of giving a verdict: %s" % summary
+        elif not foreign_crash:
+            foreign_crash = True
+            ck.violation("harness-crash", "the implementation harness aborted (sanitizer or crash) on request %d%s" % (
+                k, (": " + summary) if summary else ""),
+                {"stderr": stderr[-2000:], "request": printable(reqs[k]), "request_line": encode(reqs[k])}, False)
+    if len(impl) != len(reqs):
+        ck.violation("harness-crash", "the implementation harness gave %d answers for %d requests (%d aborts)" % (
+            len(impl), len(reqs), len(crashes)),
+            {"stderr": crashes[-1][1][-2000:] if crashes else "",
+             "request": printable(reqs[len(impl)]) if len(impl) < len(reqs) else None}, False)
     if pm.returncode != 0 or len(model) != len(reqs):
         ck.violation("driver-crash", "the Lean model driver aborted after %d answers" % len(model),
                      {"stderr": pm.stderr[-2000:]}, False)
@@ -438,7 +579,12 @@ def run(ck):
             continue
         if a == "missing" or m == "missing":
             continue   # a crash of the harness/driver is reported once, above
-        why = property_of(q, a) if a != "missing" else None
+        if a == "crash":
+            if i not in crash_why:
+                continue   # reported above as harness-crash
+            why = crash_why[i]
+        else:
+            why = property_of(q, a)
         differs = a != m
         if not differs and why is None:
             continue
@@ -448,6 +594,8 @@ def run(ck):
         g = groups.setdefault(key, {})
         rep = {"site": SITE[q["kind"]], "request": printable(q), "request_line": encode(q),
                "implementation": a, "model": m, "property_violated": why}
+        if a == "crash":
+            rep["sanitizer_report"] = crash_log[i][:1500]
         if why is not None and "viol" not in g:
             g["viol"] = (why, rep)
         if differs and "corr" not in g:
@@ -471,7 +619,11 @@ def run(ck):
         "single zero); the Float runs cover rounding and signed zeros by correspondence only",
         "tolerances are finite numbers (theorems *_sound and generator; nan_never_passes holds for every tolerance)",
         "Area: spline interpolations are not modelled (none and linear are); curves are read from files whose abscissa "
-        "column is NaN-free; theorems about the area value assume a common sorted grid (documented precondition)",
+        "column is NaN-free; theorems about the area value assume a common sorted grid (documented precondition); the "
+        "Python predicate also covers linear interpolation on two strictly increasing grids with common end points "
+        "(trapezoids of |a-b| on the union grid); on other grid pairs only the correspondence with the model is checked",
+        "MTest: period i is the time step [i-1, i]; the analytical formulas are 'r' and 'r*(1+t-tt)' (equal to the table "
+        "value r_i at t+dt, exactly); the model sees both as the list of reference values",
         "columns reach the classes through text files (TextData/convert<double>) as in tfel-check; denormal inputs are not generated",
     ]
     kinds = {}
@@ -483,7 +635,8 @@ def run(ck):
         "evaluations": len(reqs), "distinct_nontrivial": distinct,
         "rule": "requests = fixed witnesses/boundary cases + seeded random columns (dyadics, signed zeros, huge/tiny magnitudes, "
                 "NaN, +-inf; result = reference perturbed absolutely/relatively/not at all), random tolerances (0, powers of 2 and "
-                "10, negative) and time grids (common, nested, disjoint, duplicated abscissas, a few unsorted); distinct = "
+                "10, negative) and time grids (common, nested, refined/coarsened with common end points, disjoint, duplicated "
+                "abscissas, a few unsorted); MTest through both formulas and both constructors; distinct = "
                 "distinct request lines; every request executes the per-line error tests of the real class",
         "exhaustive": False, "disagreements": disagreements, "property_failures": property_failures,
         "requests_by_kind": kinds, "histogram_kind_class_verdict": dict(sorted(hist.items())),
